@@ -876,10 +876,35 @@ func (e *Enc) afterLock(st *bstate, mu ssa.Value) {
 					}(d, od, nvv, e.W.sortOf(u.Key()))
 				}
 				defer func(v *Comp, u *types.Map, nvv Val) {
-					if _, isPtr := types.Unalias(u.Elem()).Underlying().(*types.Pointer); isPtr {
+					if pt, isPtr := types.Unalias(u.Elem()).Underlying().(*types.Pointer); isPtr {
 						cur := app("select", e.heapVar(st, v), nvv.T)
+						ks := e.W.sortOf(u.Key())
 						for _, r := range private {
-							e.assert(fmt.Sprintf("(forall ((q %s)) (! (not (= (select %s q) %s)) :pattern ((select %s q))))", e.W.sortOf(u.Key()), cur, r, cur))
+							e.assert(fmt.Sprintf("(forall ((q %s)) (! (not (= (select %s q) %s)) :pattern ((select %s q))))", ks, cur, r, cur))
+						}
+						// the objects found in the map refer (one level down) to existing, non-private objects too
+						if si := e.W.structInfo(pt.Elem()); si != nil {
+							alloc := e.heapVar(st, e.allocComp())
+							for i := 0; i < si.St.NumFields(); i++ {
+								ft := si.St.Field(i).Type()
+								var val func(string) string
+								switch types.Unalias(ft).Underlying().(type) {
+								case *types.Pointer:
+									e.W.needRoot()
+									val = func(x string) string { return "(root " + x + ")" }
+								case *types.Map, *types.Chan:
+									val = func(x string) string { return x }
+								default:
+									continue
+								}
+								fc := e.heapVar(st, e.W.fieldComp(si.Type, i))
+								fv := fmt.Sprintf("(select %s (select %s q))", fc, cur)
+								conj := []string{app("<=", val(fv), alloc)}
+								for _, r := range private {
+									conj = append(conj, sNot(sEq(fv, r)))
+								}
+								e.assert(fmt.Sprintf("(forall ((q %s)) (! %s :pattern ((select %s q))))", ks, sAnd(conj...), cur))
+							}
 						}
 					}
 				}(v, u, nvv)
@@ -1078,7 +1103,10 @@ func (e *Enc) unpublishedAt(at ssa.Instruction) []string {
 				}
 			case *ssa.Store:
 				if x.Val == v && !after(x) {
-					return false
+					// storing the reference into an object that is itself still private keeps it private
+					if owner := ownerAlloc(x.Addr); owner == nil || !private(owner, seen) {
+						return false
+					}
 				}
 			case *ssa.UnOp: // load through the pointer
 				if x.Op != token.MUL {
@@ -1185,4 +1213,21 @@ func (e *Enc) growOnlyFieldAddr(fa *ssa.FieldAddr) string {
 		}
 	}
 	return ""
+}
+
+
+// ownerAlloc: the local allocation (new(T), &local) whose field or element addr denotes, if any.
+func ownerAlloc(addr ssa.Value) ssa.Value {
+	for {
+		switch x := addr.(type) {
+		case *ssa.FieldAddr:
+			addr = x.X
+		case *ssa.IndexAddr:
+			addr = x.X
+		case *ssa.Alloc:
+			return x
+		default:
+			return nil
+		}
+	}
 }
